@@ -197,8 +197,6 @@ def build(S, tier):
                 continue
             v = p.value
             at = v["at"]
-            writes = [e for e in at.log if isinstance(e, tuple)]
-            S.prove(f"{label}#ensures.displacement_routed_through_constrained_setters@{i}", writes == [("set_momenta", True), ("set_positions", True)], kind="ensures", why=str(writes))
             if cons == "FixCom":
                 (n1, _), (n0, _) = com_num(at, at.positions), com_num(at, v["P0"])
                 S.prove_rational(f"{label}#ensures.centre_of_mass_fixed@{i}", [(n1[d], n0[d]) for d in range(3)], hyps=p.pc)
